@@ -25,6 +25,8 @@ PROPS = {
     "C19": {"jobs": [{"pkg": "order", "run": "^TestC19$", "checks_quick": 60000, "checks_thorough": 150000, "shards_thorough": 16}]},
 }
 
+PROPS["C20"] = {"jobs": [{"pkg": "keys", "run": "^TestC20$", "checks_quick": 1500, "checks_thorough": 2500, "shards_thorough": 16}]}
+
 HOOK_COMMITS = []
 
 # Manifest metadata per claimed property.
